@@ -1,10 +1,10 @@
 #!/bin/bash
-# tools/take_seeds.sh <ID> <checks...> : copy round-2 seeds of <ID> from /tmp/seed/<ID>r2/_out, remove the worktree, try each
+# tools/take_seeds.sh <ID> <checks...> : copy round-2 seeds of <ID> from /tmp/seed/<ID>${ROUND:-r2}/_out, remove the worktree, try each
 ID="$1"; shift
 for v in a b c; do
-  if [ -d /tmp/seed/${ID}r2/_out/$v ]; then mkdir -p /verif/seeded/$ID-r2$v; cp -r /tmp/seed/${ID}r2/_out/$v/. /verif/seeded/$ID-r2$v/; fi
+  if [ -d /tmp/seed/${ID}${ROUND:-r2}/_out/$v ]; then mkdir -p /verif/seeded/$ID-${ROUND:-r2}$v; cp -r /tmp/seed/${ID}${ROUND:-r2}/_out/$v/. /verif/seeded/$ID-${ROUND:-r2}$v/; fi
 done
-git -C /repo worktree remove --force /tmp/seed/${ID}r2 2>/dev/null; git -C /repo worktree prune
+git -C /repo worktree remove --force /tmp/seed/${ID}${ROUND:-r2} 2>/dev/null; git -C /repo worktree prune
 for v in a b c; do
-  [ -f /verif/seeded/$ID-r2$v/patch.diff ] && /verif/tools/try_seed.sh $ID-r2$v "$@" 2>&1 | grep -E "^SEED|class:|does not apply" | head -6
+  [ -f /verif/seeded/$ID-${ROUND:-r2}$v/patch.diff ] && /verif/tools/try_seed.sh $ID-${ROUND:-r2}$v "$@" 2>&1 | grep -E "^SEED|class:|does not apply" | head -6
 done
